@@ -5,10 +5,10 @@ Open Scope N_scope.
 (** [tie s P]: the source value, where it still stands at its place, satisfies P *)
 Definition tie {A : Type} (s : option A) (P : A -> Prop) : Prop := match s with Some v => P v | None => True end.
 
-Definition s_ecdsa_dst : option (list N) := None. (* not found at its place in the source *)
-Definition s_ecdsa_L : option (list N) := None. (* not found at its place in the source *)
-Definition s_ecdsa_curves : option (list (list N)) := None.
-Definition s_ecdsa_sep : option N := None. (* not found at its place in the source *)
+Definition s_ecdsa_dst : option (list N) := Some [69; 67; 68; 83; 65; 32; 75; 101; 121; 32; 66; 108; 105; 110; 100]. (* 'ECDSA Key Blind' *)
+Definition s_ecdsa_L : option (list N) := Some [32; 48; 72; 98].
+Definition s_ecdsa_curves : option (list (list N)) := Some [[80; 45; 50; 50; 52]; [80; 45; 50; 53; 54]; [80; 45; 51; 56; 52]; [80; 45; 53; 50; 49]].
+Definition s_ecdsa_sep : option N := Some 0.
 Definition s_ecdsa_sign_entropy : option N := Some 32.
 Definition s_t3_client_blind_attester_verify : option (list N) := Some [67; 108; 105; 101; 110; 116; 66; 108; 105; 110; 100]. (* 'ClientBlind' *)
 Definition s_t3_client_blind_attester_finalize : option (list N) := Some [67; 108; 105; 101; 110; 116; 66; 108; 105; 110; 100]. (* 'ClientBlind' *)
